@@ -81,7 +81,7 @@ func c02Build(cs c02Case) ([]*Node, map[string]Val) {
 		}
 		if cs.HasElse {
 			n.HasElse = true
-			n.Else = body(len(cs.Classes), "BE")
+			n.Else = body(len(cs.Classes), "iBE") // the text behind @else begins like a longer directive name
 		}
 		construct = []*Node{nText("P"), n, nText(mark("Q"))}
 	case "ternary":
